@@ -17,6 +17,17 @@ def ok_def_blocks(body):
     return [bi for bi, lst in guards._zero_defs(body).items() if "ok" in lst or "ok?" in lst]
 
 
+VERIFIER_SIDE_KINDS = ("CommonCircuitData", "VerifierOnlyCircuitData", "CommonVerifierData")
+
+
+def artifact_kind(t):
+    return re.search(r"circuit_data::(\w+)", t.get("r") or t.get("f")).group(1)
+
+
+def is_prover_side(t):
+    return artifact_kind(t) not in VERIFIER_SIDE_KINDS
+
+
 def analyse(ck):
     ob = Ob()
     prog = ck.prog
@@ -50,9 +61,9 @@ def analyse(ck):
     fb = [(b, bb, t) for b, bb, t in prog.call_sites(r"::from_bytes$") if re.search(r"circuit_data::\w+::<.*>::from_bytes$|circuit_data::\w+::from_bytes$", t.get("r") or t.get("f") or "")]
     kinds = {}
     for b, bb, t in fb:
-        k = re.search(r"circuit_data::(\w+)", t.get("r") or t.get("f")).group(1)
+        k = artifact_kind(t)
         kinds.setdefault(k, set()).add(e2.root_of(prog, b).path)
-    bad_kinds = [k for k in kinds if k not in ("CommonCircuitData", "VerifierOnlyCircuitData", "CommonVerifierData")]
+    bad_kinds = [k for k in kinds if k not in VERIFIER_SIDE_KINDS]
     ob.add({"C17"}, not bad_kinds, "WMC", "no-prover-artifact-deserialization", "no ProverCircuitData / ProverOnlyCircuitData / CircuitData is ever deserialized in production code", None, {k: sorted(v) for k, v in kinds.items()})
     sites = set()
     for v in kinds.values():
